@@ -310,15 +310,12 @@ func (x *Exec) applyHavoc(st *State, pre *State, spec *FuncSpec, mods []modTarge
 		return
 	}
 	assigned := map[string]bool{}
-	for _, gs := range spec.GhostSets {
-		assigned[gs.Name] = true
-	}
 	for _, gs := range spec.GhostExits {
 		assigned[gs.Name] = true
 	}
 	for _, m := range mods {
 		if m.ghost != "" && assigned[m.ghost] {
-			// the callee changes this ghost only through its ghostset/ghostexit
+			// the callee changes this ghost only through its ghostexit
 			// assignments (checked when its body is verified): no havoc
 			continue
 		}
@@ -476,10 +473,12 @@ func (x *Exec) applyContract(fr *Frame, st *State, spec *FuncSpec, key string, n
 	}
 	// 2. havoc
 	mods := x.evalModifies(env, spec.Modifies)
-	x.applyHavoc(st, pre, spec, mods)
+	// ghostset: assignment at callee entry; whatever the body (or a callback)
+	// does to the ghost afterwards is covered by the havoc below
 	for _, gs := range spec.GhostSets {
 		x.setGhost(st, gs.Name, x.evalExpr(env, gs.Value))
 	}
+	x.applyHavoc(st, pre, spec, mods)
 	nf := x.em.freshConst("F", "Int")
 	x.em.assume("(<= " + pre.Frontier + " " + nf + ")")
 	st.Frontier = nf
@@ -702,7 +701,12 @@ func (x *Exec) checkClosure(fr *Frame, st *State, cl Closure, cb *FuncSpec, call
 	wrote := x.written
 	x.written = saved
 	// the callback's postconditions, as obligations on the closure
-	if len(cb.Ensures) > 0 {
+	ens := cb.Ensures
+	if fr.spec != nil {
+		// what the passing function itself demands of its closure
+		ens = append(append([]*Clause{}, ens...), fr.spec.CbEnsures...)
+	}
+	if len(ens) > 0 {
 		penv := x.newEnv(fr, cout, nil)
 		penv.noLocals = true
 		penv.old = nf.preSt
@@ -710,7 +714,7 @@ func (x *Exec) checkClosure(fr *Frame, st *State, cl Closure, cb *FuncSpec, call
 			penv.vars[k] = v
 		}
 		x.bindResults(penv, cval, resultNames(fn.Signature))
-		for _, c := range cb.Ensures {
+		for _, c := range ens {
 			p := x.evalBool(penv, c.Expr)
 			o := &Obligation{Name: fmt.Sprintf("%s/%scb:%s/ensures:%s", x.topKey, fr.prefix, key, c.Label), Kind: "ensures", Guard: cout.Reach, Prop: p,
 				Pos: x.pos(pos), Src: c.Src, FnName: x.topKey, Inputs: x.inputs}
